@@ -66,11 +66,11 @@ type concObs struct {
 }
 
 type concVersion struct {
-	Lines [][2]string     `json:"lines"`
-	Sec   int             `json:"sec"`
-	Ms    int             `json:"ms"`
-	Snap  [][2]string     `json:"snap"`
-	Notes [][][2]string   `json:"notes"`
+	Lines [][2]string   `json:"lines"`
+	Sec   int           `json:"sec"`
+	Ms    int           `json:"ms"`
+	Snap  [][2]string   `json:"snap"`
+	Notes [][][2]string `json:"notes"`
 }
 
 type concOut struct {
